@@ -6,6 +6,7 @@ oracle: an independent row specification in Python (split at sep, every field a 
   what the implementation returned + bit-identity of the printer/reader round trip (double, float, long double)."""
 import math, re, struct
 from vf.core import *
+from vf import gentie, gentie2     # translator G14b: translate/gen_csv.py -> coq/gen/CsvGen.v (CsvGenEq.v: generated = Csv.v)
 
 ERRCODE = {"invalid-stream": 0, "extraction": 1, "conversion": 2, "unexpected": 3, "not-consumed": 4, "too-long": 6}
 SEPS = [b",", b";", b" ", b"\t", b"|", b":"]
@@ -503,7 +504,16 @@ def run(ctx):
         "theorems are stated for newline-terminated rows on a good() stream; rows ended by EOF and calls on streams with eofbit/failbit are covered by the correspondence only",
         "NaN payloads are not expected to survive (to_chars prints 'nan'); the oracle requires NaN-ness and sign",
     ]
-    check_properties(ctx)
+    gentie.translate(ctx, gentie2.CSV)               # tie 1: regenerate coq/gen/CsvGen.v from core.REPO; status -> ctx.coverage["translator_csv"]
+    ok = check_properties(ctx)                        # Properties_C17.v requires CsvGenEq.v (generated member functions = Csv.v through the window abstraction)
+    if not ok:
+        gentie.name_obligations(ctx, gentie2.CSV)     # name every CsvGenEq obligation that no longer checks
+    gentie.account_eq(ctx, gentie2.CSV, ok)
+    ctx.assumptions += ["translator G14b (gen_csv.py): read_chunk, read_single (from_chars branch), read, next_line, done and the constants are regenerated; "
+                        "a char* is an offset into the array s, std::istream members are the stream operations of Csv.v (effects in evaluation order, "
+                        "short-circuit respected), from_chars is the parameter fc with the three outcomes ok / invalid_argument / result_out_of_range; the LOOPS of "
+                        "skip_comments / read_row_impl / read_row_std_vector are NOT translated (CsvGenInst.v transcribes them by hand around the generated members)",
+                        "of print.tpp only float_to_str_vw's sign rule and the type whose max_digits10 is the default precision are regenerated"]
     if not build_driver(ctx, "C17"):
         return
     rng = ctx.rng
@@ -580,3 +590,6 @@ def run(ctx):
                               "model": getattr(ctx, "last_dump", "")}))
     elif failing is not None:
         ctx.coverage["correspondence_disagreements"] = 0
+    # byte-level translation validation: the GENERATED member functions (inside the row readers of CsvGenInst.v) against the same records
+    gentie2.validate(ctx, gentie2.CSV, "gencorr", "Csv CsvGenLib CsvGen CsvGenInst Corr_C17 Corr_CsvGen", "c17case", "chk17g", terms, "model17g",
+                     lambda i: "%s: %s" % (cases[idx[i]]["tag"], to_input(cases[idx[i]])[:1500]), shard=ctx.n(250, 600), extra="From Coq Require Import Ascii.\n")
